@@ -112,7 +112,10 @@ M(a, st, d, cx) ==
     [] a.t \in {"chr", "any", "cls", "sh"} ->
          LET p == IF d = 1 THEN st.e + 1 ELSE st.e                 \* 1-based index of the unit looked at
          IN IF p >= 1 /\ p <= Len(cx.s) /\ UnitOK(a, cx.s[p], cx.f) THEN <<St(st.e + d, st.c)>> ELSE <<>>
-    [] a.t = "bol" -> IF st.e = 0 \/ (cx.f.m /\ cx.s[st.e] \in LineTerm) THEN <<st>> ELSE <<>>
+    [] a.t = "bol" -> IF "Dev_BolMEnd" \in cx.devs
+                      THEN \* as-is (regex/vm.py LINE_START_M): never at the end of the input
+                           (IF st.e = 0 \/ (cx.f.m /\ st.e < Len(cx.s) /\ cx.s[st.e] \in LineTerm) THEN <<st>> ELSE <<>>)
+                      ELSE IF st.e = 0 \/ (cx.f.m /\ cx.s[st.e] \in LineTerm) THEN <<st>> ELSE <<>>
     [] a.t = "eol" -> IF st.e = Len(cx.s) \/ (cx.f.m /\ cx.s[st.e + 1] \in LineTerm) THEN <<st>> ELSE <<>>
     [] a.t = "wb"  -> IF IsWordAt(cx.s, st.e) # IsWordAt(cx.s, st.e + 1) THEN <<st>> ELSE <<>>
     [] a.t = "nwb" -> IF IsWordAt(cx.s, st.e) = IsWordAt(cx.s, st.e + 1) THEN <<st>> ELSE <<>>
@@ -155,7 +158,7 @@ M(a, st, d, cx) ==
                  LET pre == Copies(a.x[1], a.min, <<st>>, d, cx)
                  IN IF a.max = -1 THEN Dedupe(RMAll(a.x[1], gs, 0, -1, a.g, pre, 1, d, cx))
                     ELSE Dedupe(OptChain(a.x[1], gs, a.g, a.max - a.min, pre, d, cx))
-            ELSE IF a.min = 0 /\ a.max = 1 /\ "Dev_OptionalReset" \in cx.devs
+            ELSE IF a.min = 0 /\ a.max = 1 /\ "Dev_OptionalEmpty" \in cx.devs
             THEN OptAsIs(a.x[1], gs, a.g, st, d, cx)
             ELSE RM(a.x[1], gs, a.min, a.max, a.g, st, d, cx)
 
@@ -186,6 +189,51 @@ RECURSIVE OptAll(_, _, _, _, _, _, _)
 OptAll(b, gs, g, sts, k, d, cx) ==
   IF k > Len(sts) THEN <<>> ELSE OptAsIs(b, gs, g, sts[k], d, cx) \o OptAll(b, gs, g, sts, k + 1, d, cx)
 OptChain(b, gs, g, n, sts, d, cx) == IF n = 0 THEN sts ELSE OptChain(b, gs, g, n - 1, Dedupe(OptAll(b, gs, g, sts, 1, d, cx)), d, cx)
+
+\* ---- where the engine's matcher is known to deviate (structural predicates used by the judges) ---------------
+\* exact as-is rules are switched on through cx.devs above; these say on which trees each of them can matter
+RECURSIVE RepsIn(_)
+RepsIn(a) == (IF a.t = "rep" THEN {<<a.min, a.max, NeedsAdv(a.x[1])>>} ELSE {})
+             \cup (IF a.t \in Binary THEN RepsIn(a.x[1]) \cup RepsIn(a.x[2]) ELSE IF a.t \in Unary THEN RepsIn(a.x[1]) ELSE {})
+Applicable(a, f) ==
+  (IF \E r \in RepsIn(a) : ~(r[1] = 0 /\ r[2] = 1) /\ ~(r[1] <= 1 /\ r[2] = -1) THEN {"Dev_CountedUnroll"} ELSE {})
+  \cup (IF \E r \in RepsIn(a) : r[1] >= 1 /\ r[2] = -1 /\ r[3] THEN {"Dev_PlusAdvance"} ELSE {})
+  \cup (IF \E r \in RepsIn(a) : r[1] = 0 /\ r[2] = 1 THEN {"Dev_OptionalEmpty"} ELSE {})
+  \cup (IF "lb" \in Kinds(a) THEN {"Dev_LbForward"} ELSE {})
+  \cup (IF "bol" \in Kinds(a) /\ f.m THEN {"Dev_BolMEnd"} ELSE {})
+\* ... and input-class deviations for the two sub-matchers, which skip the opcodes they do not know
+\* (regex/vm.py _execute_lookahead: only CHAR, DOT, SAVE_START/END, SPLIT, JUMP, MATCH are interpreted)
+RECURSIVE SubOK(_, _, _)
+SubOK(a, f, kind) ==                     \* is the node interpreted faithfully by sub-matcher `kind` ("la" / "lb") ?
+  CASE a.t = "chr" -> TRUE
+    [] a.t = "any" -> ~f.s
+    [] a.t = "sh" -> kind = "lb" /\ a.c \in {100, 119}
+    [] a.t \in {"cat", "alt"} -> SubOK(a.x[1], f, kind) /\ SubOK(a.x[2], f, kind)
+    [] a.t = "ncg" -> SubOK(a.x[1], f, kind)
+    [] a.t = "grp" -> kind = "la" /\ SubOK(a.x[1], f, kind)
+    [] a.t = "rep" -> /\ SubOK(a.x[1], f, kind) /\ ~NeedsAdv(a.x[1]) /\ GroupsIn(a.x[1]) = {}      \* no SET_POS/CHECK_ADVANCE/SAVE_RESET needed
+    [] a.t = "eps" -> TRUE
+    [] OTHER -> FALSE
+RECURSIVE SubBad(_, _, _)
+SubBad(a, f, kind) ==                    \* some lookaround of that kind has a body the sub-matcher mis-executes
+  \/ a.t = kind /\ ~SubOK(a.x[1], f, kind)
+  \/ a.t \in Unary /\ SubBad(a.x[1], f, kind)
+  \/ a.t \in Binary /\ (SubBad(a.x[1], f, kind) \/ SubBad(a.x[2], f, kind))
+\* does a backreference precede (in pattern text) the group it names?  (regex/parser.py counts groups while parsing)
+RECURSIVE Fwd(_, _)
+Fwd(a, n) == IF a.t = "bref" THEN [bad |-> a.n > n, n |-> n]
+             ELSE IF a.t = "grp" THEN Fwd(a.x[1], n + 1)
+             ELSE IF a.t \in Unary THEN Fwd(a.x[1], n)
+             ELSE IF a.t \in Binary THEN LET l == Fwd(a.x[1], n)  r == Fwd(a.x[2], l.n) IN [bad |-> l.bad \/ r.bad, n |-> r.n]
+             ELSE [bad |-> FALSE, n |-> n]
+\* a lookaround body with a loop that relies on CHECK_ADVANCE (which the sub-matchers skip): spins until the stack limit
+RECURSIVE HasSpin(_), SpinBad(_)
+HasSpin(a) == \/ a.t = "rep" /\ a.max = -1 /\ NeedsAdv(a.x[1])
+              \/ a.t \in Unary /\ HasSpin(a.x[1])
+              \/ a.t \in Binary /\ (HasSpin(a.x[1]) \/ HasSpin(a.x[2]))
+SpinBad(a) == \/ a.t \in {"la", "lb"} /\ HasSpin(a.x[1])
+              \/ a.t \in Unary /\ SpinBad(a.x[1])
+              \/ a.t \in Binary /\ (SpinBad(a.x[1]) \/ SpinBad(a.x[2]))
 
 \* ---- match attempts ---------------------------------------------------------------------------
 NoMatch == [ok |-> FALSE, index |-> -1, end |-> -1, caps |-> <<>>]
@@ -408,7 +456,8 @@ CatList(a) == IF a.t = "cat" THEN CatList(a.x[1]) \o CatList(a.x[2])
               ELSE IF a.t = "ncg" THEN CatList(a.x[1])
               ELSE IF a.t = "eps" THEN <<>> ELSE <<Norm(a)>>
 AltList(a) == IF a.t = "alt" THEN AltList(a.x[1]) \o AltList(a.x[2])
-              ELSE IF a.t = "ncg" THEN AltList(a.x[1]) ELSE <<Norm(a)>>
+              ELSE IF a.t = "ncg" THEN AltList(a.x[1])
+              ELSE LET n == Norm(a) IN IF n.t = "alt" THEN AltList(n) ELSE <<n>>     \* (?:|(?:a|b)) collapses to an alternation
 Norm(a) ==
   CASE a.t = "ncg" -> Norm(a.x[1])
     [] a.t = "cat" -> MkCat(CatList(a))
